@@ -136,6 +136,42 @@ func main() {
 		o.Set("txn.pendingCmp", anchor, val, ok, "rawBytes")
 	}
 
+	{
+		// txn.pendingFresh: newPendingWritesIterator builds its sorted copy from the CURRENT
+		// txn.pendingWrites on every call: exactly two returns (`return nil` guard, the new iterator),
+		// the copy loop ranges over txn.pendingWrites, no field of txn is assigned (no cached copy)
+		anchor := "txn.go:newPendingWritesIterator"
+		np := tx.Func("Txn.newPendingWritesIterator")
+		ok := false
+		if np != nil {
+			rets, ranges, assignsTxn := 0, 0, 0
+			ast.Inspect(np.Body, func(x ast.Node) bool {
+				switch n := x.(type) {
+				case *ast.FuncLit:
+					return false
+				case *ast.ReturnStmt:
+					rets++
+				case *ast.RangeStmt:
+					if tx.Src(n.X) == "txn.pendingWrites" {
+						ranges++
+					}
+				case *ast.AssignStmt:
+					for _, l := range n.Lhs {
+						if strings.HasPrefix(tx.Src(l), "txn.") {
+							assignsTxn++
+						}
+					}
+				}
+				return true
+			})
+			src := tx.Src(np.Body)
+			ok = rets == 2 && ranges == 1 && assignsTxn == 0 &&
+				strings.Contains(src, "if !txn.update || len(txn.pendingWrites) == 0 { return nil }") &&
+				strings.Contains(src, "entries: entries")
+		}
+		o.Set("txn.pendingFresh", anchor, "true", ok, "true")
+	}
+
 	// ------------------------------------------------------------ txn_iterator.go
 	ti := o.Load("txn_iterator.go")
 	adv := ti.Func("TxnIterator.advance")
